@@ -44,7 +44,7 @@ def run(chk):
     maxdim = 3 if chk.quick else 3
     lines = []
     # per-operator streams, then mixed histories
-    per = 6 if chk.quick else 60
+    per = 9 if chk.quick else 60
     cid = 0
     for i, op in enumerate(ALL_OPS):
         ls = gen_poly.make_cases(chk.seed * 1000 + i, per, maxdim=maxdim, nobj=2, steps=3, ops=[op], pq=0.0, pobs=0.25, start=cid)
